@@ -56,7 +56,7 @@ REMOVE_KINDS = ("RemoveRecord", "BulkRemoveRecord")
 def check(run, repo, tier):
   w = World(repo)
   from ._extra import c10_updates_unfiltered
-  c10_updates_unfiltered(run, w, "C09-R5")
+  run.guard(c10_updates_unfiltered, run, w, "C09-R5")
   r1_removal_funnel(run, w, "C09-R1")
   r2_cascade(run, w)
   r3_auto_remove(run, w)
